@@ -24,12 +24,20 @@ for b in blocks:
         run = b; break
 res['run_block'] = run
 def demo():
-    if not run: return None, ''
-    cmd = re.sub(re.escape(orig) + r'(?!-out)', W, run)
-    cmd = re.sub(r'CARGO_TARGET_DIR=\S+', 'CARGO_TARGET_DIR=%s/target/demo' % W, cmd).replace('-j4', '-j12')
-    r = sh(cmd, timeout=3000)
-    sh('git clean -fdq -e target')
-    return r.returncode, r.stdout[-3000:]
+    """the demonstration is an integration test file demo.rs (optionally demo.diff adding cfg(test) schedule points)"""
+    src = mdir + '/demo.rs'
+    if not os.path.exists(src): return None, 'no demo.rs'
+    txt = open(src).read()
+    crate = 'fe2o3-amqp' if 'fe2o3_amqp::' in txt or 'fe2o3_amqp ' in txt else ('fe2o3-amqp-types' if 'fe2o3_amqp_types' in txt else 'serde_amqp')
+    sh('cp %s %s/tests/seed_demo.rs' % (src, crate))
+    out = ''
+    for feats in ('', '--features acceptor,transaction'):
+        cmd = 'RUSTFLAGS="--cfg fe2o3_amqp_verif" CARGO_TARGET_DIR=%s/target/demo cargo test --offline -j12 -p %s %s --test seed_demo -- --test-threads=1 2>&1' % (W, crate, feats)
+        r = sh(cmd, timeout=3000)
+        out = r.stdout[-3000:]
+        if 'could not compile' not in r.stdout: break
+    sh('rm -f %s/tests/seed_demo.rs' % crate)
+    return r.returncode, out
 rc1, out1 = demo()
 res['demo_with_patch_rc'] = rc1
 # suite with the patch
